@@ -217,7 +217,7 @@ pub fn lookup_case_w(r: &mut Rng, n_real: usize, n_phantom: usize, kind: u8, nod
 /// requests are still out - and lists a real node right next to the target: it is asked, answers and leads the report
 pub fn deep_case(r: &mut Rng, kind: u8) -> String {
     let is_find = kind == 0;
-    let waves = 12usize;
+    let waves = 8usize;
     let n_known = waves + 1;
     let mut s = Scn::new(r, n_known, false, Default::default());
     let target = id20(r);
@@ -226,7 +226,9 @@ pub fn deep_case(r: &mut Rng, kind: u8) -> String {
     let mut u: Vec<UNode> = s.peers.iter().map(unode_of_peer).collect();
     for w in 0..waves {
         for i in 0..20usize {
-            let ip = 0x3000_0000u32 + ((w as u32) << 16) + ((i as u32) << 8) + 3;
+            // private addresses: every id counts as BEP42-secure there, like the real peers' on loopback, so the waves are
+            // ranked by distance alone and each one fills the twenty closest
+            let ip = 0x0a00_0000u32 + (((w + 1) as u32) << 16) + ((i as u32) << 8) + 3;
             u.push(UNode { id: id_at_distance(&target, 150 - 5 * w, r), ip, port: 5100 });
         }
     }
@@ -361,8 +363,8 @@ pub fn generate(seed: u64, scale: usize) -> Cases {
     cases.push("wide_280_candidates_then_the_closest", lookup_case_w(&mut r, 6, 350, 0, false, true));
     cases.push("wide_280_candidates_then_the_closest", lookup_case_w(&mut r, 5, 280, 1, false, true));
     // more than 128 requests in one lookup, then a late answer that lists the closest node
-    cases.push("deep_200_requests_then_a_late_answer", deep_case(&mut r, 0));
-    cases.push("deep_200_requests_then_a_late_answer", deep_case(&mut r, 1));
+    cases.push("deep_160_requests_then_a_late_answer", deep_case(&mut r, 0));
+    cases.push("deep_160_requests_then_a_late_answer", deep_case(&mut r, 1));
     let _ = Ipv4Addr::LOCALHOST;
     cases
 }
